@@ -1126,6 +1126,31 @@ theorem gidx_slice_boundary (S : Segmenter) {buf line : Text} {a b : Nat}
     exact ⟨x ++ p, g ++ q ++ z, by rw [hb]; simp, by rw [ha]; simp⟩
 
 
+/-- `colFind` over (a part of) the cluster list of `line`: no panic, the result is a cluster offset -/
+theorem colFind_ok (S : Segmenter) (U : UData) (line : Text) (w : Nat) (L : List (Nat × Text))
+    (hL : ∀ e ∈ L, e ∈ gidx S line) :
+    ∃ r, LB.colFind U line w L = .ok r ∧ ∀ idx, r = some idx → ∃ g, (idx, g) ∈ gidx S line := by
+  induction L with
+  | nil => exact ⟨none, rfl, by simp⟩
+  | cons e rest ih =>
+    obtain ⟨idx, g⟩ := e
+    have hm := hL (idx, g) (by simp)
+    obtain ⟨a, b, hab, hi⟩ := gidx_mem hm
+    have hst : sliceTo line idx = .ok a := by rw [hab, hi, List.append_assoc]; exact sliceTo_mid a _
+    unfold LB.colFind
+    simp only [hst, bind, Except.bind]
+    by_cases hc : U.width a ≥ w
+    · exact ⟨some idx, by simp [hc, pure, Except.pure], fun i hi' => by cases hi'; exact ⟨g, hm⟩⟩
+    · obtain ⟨r, hr, hp⟩ := ih (fun e he => hL e (by simp [he]))
+      exact ⟨r, by simp [hc, hr], hp⟩
+
+/-- `colFind_ok` with the run given as an equation (the wanted column is inferred from it) -/
+theorem colFind_ok' (S : Segmenter) {U : UData} {line : Text} {w : Nat} {L : List (Nat × Text)}
+    {o : Except Panic (Option Nat)} (h : LB.colFind U line w L = o) (hL : ∀ e ∈ L, e ∈ gidx S line) :
+    ∃ r, o = .ok r ∧ ∀ idx, r = some idx → ∃ g, (idx, g) ∈ gidx S line := by
+  obtain ⟨r, hr, hp⟩ := colFind_ok S U line w L hL
+  exact ⟨r, by rw [← h, hr], hp⟩
+
 theorem lineStart_cases {buf u rest : Text} (hb : buf = u ++ rest) :
     ∃ ds0, ((rfindChar '\n' u = none ∧ ds0 = 0) ∨ (∃ k, rfindChar '\n' u = some k ∧ ds0 = k + 1)) ∧
       IsLineStart buf ds0 ∧ ds0 ≤ blen u := by
